@@ -205,7 +205,7 @@ let gen_mode seed tier out =
   st := Int64.of_string seed;
   ignore (next ());
   let oc = open_out out in
-  let per = if tier = "thorough" then 400 else 64 in
+  let per = if tier = "thorough" then 1200 else 64 in
   List.iter (fun (name, s) ->
       (* wfs s = true is a theorem (ledger_schemas_wf, for every depth); it is not re-evaluated here: the
          unrolled PlutusData schema at depth 3 has 130^3 nodes as a tree *)
